@@ -1565,6 +1565,9 @@ class Interp:
         return o
 
     def call_method(self, o, name, args, kwargs, ctx):
+        if getattr(o, "preexisting", False) and isinstance(o, (PyList, PyDict, PySet)) and name in (
+                "add", "append", "pop", "update", "clear", "setdefault", "extend", "insert", "remove", "discard", "sort", "reverse"):
+            ctx.ghost.heap_writes.append((o, f"{name}()"))
         if getattr(o, "module_level", None) and name in ("add", "append", "pop", "update", "clear", "setdefault", "extend", "insert",
                                                          "remove", "discard", "sort", "reverse"):
             ctx.ghost.module_writes.append((o.module_level, f"{name}() on a module-level object"))
@@ -1618,6 +1621,22 @@ class MethodRef:
     def __init__(self, obj, name):
         self.obj = obj
         self.name = name
+
+
+def mark_preexisting(o, depth=0):
+    """the object and the containers / objects reachable from its attributes existed before the operation under analysis:
+    assignments to them are recorded as heap writes (frame condition)"""
+    if depth > 3:
+        return
+    if isinstance(o, Obj):
+        o.preexisting = True
+        for v in o.attrs.values():
+            mark_preexisting(v, depth + 1)
+    elif isinstance(o, (PyList, PyDict, PySet)):
+        o.preexisting = True
+        vals = o.items if isinstance(o, PyList) else (list(o.d.values()) if isinstance(o, PyDict) else [])
+        for v in vals:
+            mark_preexisting(v, depth + 1)
 
 
 def _load(t):
